@@ -13,6 +13,10 @@ each of which is exact with respect to the trusted byte-level contracts of the s
                        (the shim methods REQUIRE in-range char boundaries: the panics of str indexing become obligations)
   S5  format!("p0{}p1{}p2", a, b) -> vx_lit(p0).vx_cat(&(a).vx_disp()).vx_cat(vx_lit(p1))...   (only `{}` placeholders)
   S6  X.parse::<u16>() -> X.vx_parse_u16()
+  S7  iterator idioms over pieces of a string, recognised syntactically:
+        IT.map(|v| v.to_string())      -> IT.vx_map_to_string()       (same pieces, owned)
+        IT.filter(|v| !v.is_empty())   -> IT.vx_filter_nonempty()     (the non-empty pieces, in order)
+        IT.collect()                   -> IT.vx_collect()             (a Vec of the pieces, in order)
 """
 import re
 
@@ -130,6 +134,25 @@ def apply(toks, au, inner=False):
             au.note("S", "X.parse::<u16>() -> X.vx_parse_u16()")
             out += [t, Tok("id", "vx_parse_u16", ""), Tok("p", "(", ""), Tok("p", ")", "")]
             i += 9
+            continue
+        # S7 iterator idioms
+        if is_p(t, ".") and i + 2 < n and toks[i + 1].kind == "id" and toks[i + 1].text in ("map", "filter") and is_p(toks[i + 2], "("):
+            k = match_close(toks, i + 2)
+            arg = [x.text for x in toks[i + 3:k]]
+            if toks[i + 1].text == "map" and len(arg) == 8 and arg[0] == "|" and arg[2] == "|" and arg[3] == arg[1] and arg[4:] == [".", "to_string", "(", ")"]:
+                au.note("S", ".map(|v| v.to_string()) -> .vx_map_to_string()")
+                out += [t, Tok("id", "vx_map_to_string", ""), Tok("p", "(", ""), Tok("p", ")", "")]
+                i = k + 1
+                continue
+            if toks[i + 1].text == "filter" and len(arg) == 9 and arg[0] == "|" and arg[2] == "|" and arg[3] == "!" and arg[4] == arg[1] and arg[5:] == [".", "is_empty", "(", ")"]:
+                au.note("S", ".filter(|v| !v.is_empty()) -> .vx_filter_nonempty()")
+                out += [t, Tok("id", "vx_filter_nonempty", ""), Tok("p", "(", ""), Tok("p", ")", "")]
+                i = k + 1
+                continue
+        if is_p(t, ".") and i + 3 < n and is_id(toks[i + 1], "collect") and is_p(toks[i + 2], "(") and is_p(toks[i + 3], ")"):
+            au.note("S", ".collect() -> .vx_collect()")
+            out += [t, Tok("id", "vx_collect", ""), Tok("p", "(", ""), Tok("p", ")", "")]
+            i += 4
             continue
         # S3 char argument
         if is_p(t, ".") and i + 4 < n and toks[i + 1].kind == "id" and is_p(toks[i + 2], "(") and toks[i + 3].kind == "char" and is_p(toks[i + 4], ")"):
